@@ -52,6 +52,31 @@ def frame_obligations(eng, prefix, st, old, allowed, kind="frame"):
     return n
 
 
+def nohavoc_obligations(eng, c, s, old, env, prefix):
+    """havoc_only_if of the contract under verification: on every exit reached with the condition false in
+    the pre-state, no object that existed at entry has changed."""
+    if not c.havoc_only_if:
+        return
+    cond = eng.spec_eval(c.havoc_only_if, old, old=old, env=env)
+    try:
+        if eng.prover.quick(s.pc, cond, 2000) == "proved":
+            return          # this exit is only reached when the condition holds: nothing to show
+    except Exception:
+        pass
+    sg = s.fork().assume(z3.Not(cond))
+    allowed = allowed_set(eng, list(c.quiet_modifies) + [p for p, _ in c.ghost_exit], env, old) or set()
+    conj = []
+    r = z3.Int("fr_r")
+    for key, arr in sg.heap.items():
+        base = old.heap.get(key)
+        if base is None or arr.eq(base) or key in allowed:
+            continue
+        objs = [o for (kk, o) in [a for a in allowed if isinstance(a, tuple)] if kk == key]
+        conj.append(z3.ForAll([r], z3.Implies(z3.And(r < eng.A0, *[r != o.t for o in objs]),
+                                              z3.Select(arr, r) == z3.Select(base, r))))
+    eng.oblige(prefix + ".no-existing-object-changed", "frame", sg, z3.And(*conj) if conj else z3.BoolVal(True))
+
+
 def allowed_set(eng, paths, env, st):
     allowed = set()
     for p in paths:
@@ -72,7 +97,7 @@ def verify_function(table, reg, qual, cls, props, timeout_ms=None):
     res = {"unit": unit, "qual": qual, "cls": cls, "kind": "function", "obligations": [],
            "unsupported": None, "vacuous": False, "error": None, "props": list(props)}
     f = table.get(qual)
-    c = reg.contracts.get(qual)
+    c = reg.contract_for(qual, cls)
     if f is None:
         res["error"] = "function %s not found in /repo working tree" % qual
         return res
@@ -130,7 +155,16 @@ def verify_function(table, reg, qual, cls, props, timeout_ms=None):
         for path, expr in c.ghost_entry:
             for o, cl, fn in calls.resolve_path(eng, path, env, st):
                 eng.store_field(st, o.t, cl, fn, eng.spec_value(expr, st, old=old))
-        outs = stmts.exec_block(eng, f.body, st)
+        if c.havoc_only_if:
+            # case split at entry on the contract's own havoc condition: in the quiet case every callee's
+            # conditional havoc is decided on the spot and the heap stays syntactically the entry heap
+            cnd = eng.spec_eval(c.havoc_only_if, st, old=old, env=env)
+            outs = []
+            for es in (st.fork().assume(cnd), st.fork().assume(z3.Not(cnd))):
+                if eng.feasible(es):
+                    outs += stmts.exec_block(eng, f.body, es)
+        else:
+            outs = stmts.exec_block(eng, f.body, st)
         eng.paths = len(outs)
         normal_allowed = allowed_set(eng, c.modifies + [p for p, _ in c.ghost_exit], env, old)
         def exc_frame(spec):
@@ -175,6 +209,7 @@ def verify_function(table, reg, qual, cls, props, timeout_ms=None):
                     eng.oblige("post.%s" % lab, "post", s, g, eval_terms=witness_terms(eng, env, old, result))
                 if normal_allowed is not None:
                     frame_obligations(eng, "frame", s, old, normal_allowed)
+                nohavoc_obligations(eng, c, s, old, env, "nohavoc")
             elif ctl[0] == "raise":
                 exc = ctl[1]
                 if not eng.feasible(s):
@@ -196,6 +231,9 @@ def verify_function(table, reg, qual, cls, props, timeout_ms=None):
                 else:
                     g = z3.BoolVal(False)
                 status = eng.oblige(name, "raises", s, g, eval_terms=witness_terms(eng, env, old))
+                if not clauses and status == "proved":
+                    # no clause allows this exception and the path was proved infeasible: nothing else to show on it
+                    continue
                 ea = exc_allowed
                 if exc_allowed_by:
                     ea = set()      # default for a class not listed: strict frame
@@ -205,6 +243,7 @@ def verify_function(table, reg, qual, cls, props, timeout_ms=None):
                             break
                 if ea is not None:
                     frame_obligations(eng, "excframe.%s" % exc.cls, s, old, ea, kind="excframe")
+                nohavoc_obligations(eng, c, s, old, env, "nohavoc.%s" % exc.cls)
                 for i, cl in enumerate(c.exc_ensures):
                     g = eng.spec_eval(cl, s, old=old, env=env)
                     eng.oblige("excpost.%s.%d" % (exc.cls, i), "post", s, g)
